@@ -11,7 +11,7 @@ ops (address texts are hex of their UTF-8 bytes, `-` = empty text):
   exec <active> g <txv>;<base>|<txv>;<base>...
   exec <active> p <outer txv> <inner txv | none> <base>
   prod <active> <txv>|<txv>...              -> take | skip
-  pool <reach 0|1> <base> <txv>|<txv>...    -> accepted | blocked | other
+  pool <reach 0|1> <base> <txv>;<addrOk 0|1>|...    -> accepted | blocked | other
   delay <txv>                               -> cached | blocked
 txv = <from>/<to>/<realTo>/<evm>,  evm = `n` | <contract text>:<para raw hex>
 -/
@@ -86,7 +86,11 @@ def step (set : List Raw) (line : String) : List Raw × String :=
     | some ts => (set, if producerTakes (a == "1") set ts then "take" else "skip")
     | none => (set, "bad-op")
   | ["pool", r, b, l] =>
-    match poolRes? b, txvs? l with
+    let ms := (l.splitOn "|").mapM fun m =>
+      match m.splitOn ";" with
+      | [t, a] => do pure (← txv? t, a == "1")
+      | _ => none
+    match poolRes? b, ms with
     | some b, some ts => (set, poolS (poolSubmit set ts (r == "1") b))
     | _, _ => (set, "bad-op")
   | ["delay", t] =>
